@@ -271,7 +271,7 @@ theorem runtime_structure_as_modelled :
 
 /-! ### The dispatch model (any tables, any world, any actor logic) -/
 
-private theorem restrict_error_forbidden {m : Nat} {c : Caller} {e : Err}
+theorem restrict_error_forbidden {m : Nat} {c : Caller} {e : Err}
     (h : restrictInternalApi m c = .error e) : e = .forbidden := by
   unfold restrictInternalApi at h
   split at h
@@ -350,7 +350,7 @@ theorem designated_passes_validation {σ : Type} (T : Tables) (B : Bodies σ) (a
       cases hb : B.body a m c w1 <;>
         simp [trampoline, handlerProg, Prog.run, validateCall, hd, hp, hb]
 
-private theorem isRestricted_gen (a : Actor) : isRestricted genTables a = specRestricted a := by
+theorem isRestricted_gen (a : Actor) : isRestricted genTables a = specRestricted a := by
   cases a <;> decide +kernel
 
 /-- Method numbers below 2^24 (other than 0, the plain send) of every actor the spec lists as
@@ -396,7 +396,7 @@ theorem internal_api_exemptions :
         cases t <;> first | rfl | exact absurd rfl ht
       simp only [this, Bool.false_eq_true, if_false]
 
-private theorem run_inv {σ : Type} (c : Caller) (p : Prog σ) :
+theorem run_inv {σ : Type} (c : Caller) (p : Prog σ) :
     ∀ (r r' : Rt σ), p.run c r = .ok r' →
       (r.validated = true → r'.validated = true ∧ r'.log = r.log) ∧
       (r.validated = false →
